@@ -16,6 +16,7 @@ import VrlModel.Driver.C26
 import VrlModel.Driver.C28
 import VrlModel.Driver.C29f
 import VrlModel.Driver.C21
+import VrlModel.Driver.C19
 
 /-- Line protocol driver: one case per line `op <tab> arg…`, one reply line per case. -/
 def handlers : List (String → List String → Option String) := [
@@ -36,7 +37,8 @@ def handlers : List (String → List String → Option String) := [
   Driver.C26.handle,
   Driver.C28.handle,
   Driver.C29f.handle,
-  Driver.C21.handle
+  Driver.C21.handle,
+  Driver.C19.handle
 ]
 
 def dispatch (op : String) (args : List String) : String :=
